@@ -445,6 +445,14 @@ def lay5(ctx, c):
                     "get_binary_array takes the fields in order %s; an instruction is opcode, post-byte, operand" % seq, where)
         else:
             c.undecided("get_binary_array:order", "shape-not-recognised", "fields mentioned: %s" % sorted(first), where)
+    # a field is emitted because it is there (its hex_len), not because its VALUE is non-zero: post byte 00 (TFR D,D) and opcode 00 (NEG <n) are real bytes
+    zero_tests = [x for x in ast.walk(f.node) if isinstance(x, (ast.IfExp, ast.If)) and re.fullmatch(r"(not )?[\w.]*code_pkg\.(op_code|post_byte|additional)\.int( (!=|>|==) 0)?", U(x.test))]
+    if zero_tests:
+        c.finding("get_binary_array:zero-valued-field", "a field is emitted only when its value is non-zero (%s)" % U(zero_tests[0].test)[:50],
+                  "get_binary_array tests `%s` before emitting the field: a post byte or opcode whose value is 0 is a byte of the instruction (EXG D,D is 1E 00, NEG <$10 is 00 10), "
+                  "so the image is one byte short of what the listing reserves and every later byte lies one address low" % U(zero_tests[0].test)[:60], repo.loc(f, zero_tests[0]))
+    else:
+        c.ok("get_binary_array:zero-valued-field", "no field is skipped for having the value 0", where)
     for ln, name, start, step, node in order:
         c.check(start == 0 and step == 2, "get_binary_array:%s" % name, "every byte (2 hex digits) emitted", "range start %s step %s" % (start, step),
                 "get_binary_array walks the %s hex string from %s in steps of %s" % (name, start, step), repo.loc(f, node))
@@ -785,6 +793,10 @@ def wid9(ctx, c):
             pbad = pbad or ("is_4_bit", desc, "claims a 5-bit field (-16..+15) holds %s" % desc)
         if g8 and not w8:
             pbad = pbad or ("is_8_bit", desc, "claims an 8-bit field (-128..+127) holds %s" % desc)
+        if w8 and not g8 and not g16:
+            # the indirect forms [n,R] have no 5-bit encoding and ask is_8_bit() first: a value that fits eight bits and is refused by both wider
+            # predicates falls through to the catch-all arm of ExtendedIndexedOperand.translate
+            pbad = pbad or ("is_8_bit", desc, "holds for neither is_8_bit() nor is_16_bit() although %s fits eight bits: [n,R] has no 5-bit form to fall back on" % desc)
         if not (g4 or g8 or g16):
             pbad = pbad or ("is_16_bit", desc, "no width predicate holds for %s: the encoders fall through to their last arm" % desc)
     if pbad:
